@@ -197,6 +197,10 @@ class _FilePersistence(_ConcretePersistence):
             raise ValueError("DataPointPersistence expects a filename " +
                              "for data_filename, but got: %s" % data_filename)
 
+        if "\0" in data_filename:
+            raise ValueError("The name of the data file must not contain a null byte: %r"
+                             % data_filename)
+
         self._data_filename = data_filename
         self._file = None
         if configurator.discard_old_data:
